@@ -233,6 +233,7 @@ static void run_case(long idx)
         /* (c) a decoder fed exactly what it asks for (hint = total size of the next input, leftover included) never asks beyond the frame and consumes exactly it */
         size_t const extra = 100; uint8_t* src2 = (uint8_t*)malloc(ctotal + extra); memcpy(src2, dst, ctotal); memset(src2 + ctotal, 0x28, extra);   /* other data follows the frame */
         ZSTD_DStream* d = ZSTD_createDStream(); ZSTD_DCtx_setParameter(d, ZSTD_d_windowLogMax, 30);
+        if (vr_chance(&r, 1, 4)) { ZSTD_DCtx_setParameter(d, ZSTD_d_forceIgnoreChecksum, ZSTD_d_ignoreChecksum); v_stat("hint_runs_ignoring_checksums", 1); }      /* the 4 checksum bytes are still part of the frame to consume */
         size_t const oc = 1 + vr_u64(&r, vr_chance(&r, 1, 3) ? 8 : 200000); uint8_t* ob = (uint8_t*)malloc(total + 16);
         /* optional prior history on the same decoder: a frame read to some point - in half of the cases exactly to the point where the decoder keeps the last
          * input byte "hostage" because output is still pending - and abandoned with a session reset / ZSTD_initDStream */
